@@ -147,7 +147,7 @@ theorem C07_reraise_off_returns (e : Env) (s : Sig) (hs : s.graceful = false) (p
     onSignal x = [.storeSignal, .setAlarm, .logNotice, .flush, .ret] ∧
     exec e s (onSignal x) false false f =
       ({ queue := [], written := f.written ++ f.queue ++ (if e.infoOn then [.notice] else []) }, .continues) := by
-  obtain ⟨run, info, crit, wait⟩ := e
+  obtain ⟨run, info, crit, wait, gu⟩ := e
   simp only at hrun
   subst hrun
   have h1 : onSignal ⟨s, true, pr, true, false, true, false⟩ = [.storeSignal, .setAlarm, .logNotice, .flush, .ret] := by
@@ -676,6 +676,51 @@ theorem C07_neg_id_cleared_before_stop :
     (let a := (CS.init { queue := [.stmt 1], written := [.stmt 0] }).run stopSeqCurrent true [.stopper, .stopper]
      signalDuringStop true true true .segv false a a =
        ({ queue := [], written := [.stmt 0, .stmt 1, .notice, .critical] }, .diedBy .segv)) := by
+  decide
+
+/-! ### the candidate repair of F27 (`findings/F27_candidate_repair.diff`): the handler's wait ends when the backend thread is gone -/
+
+/-- the interleaving theorems above are about the code whose handler waits for ever (`Obligations.exit_flush_waits_for_ever`) -/
+theorem C07_stop_model_waits_for_ever (wait info crit : Bool) (s : Sig) (pr : Bool) (a b : CS) :
+    signalDuringStopG false wait info crit s pr a b = signalDuringStop wait info crit s pr a b := rfl
+
+/-- with the repair, at **every** interleaving point inside `stop()` the process ends the way the property asks for (by
+    the signal; `exit(0)` for SIGINT/SIGTERM) — no hang; before the backend's last look nothing changes; after it the
+    lines already in the destination stay and the notice(s) are what remains lost -/
+theorem C07_F27_repair_never_hangs (wait info crit : Bool) (s : Sig) (pr : Bool) (f : Fe) (pre mid : List Ev) :
+    let a := (CS.init f).run stopSeqCurrent wait pre
+    let b := a.run stopSeqCurrent wait mid
+    a.pc < 6 →
+    (signalDuringStopG true wait info crit s pr a b).2 = (if s.graceful then .exit0 else .diedBy s) ∧
+    (b.serving = true → signalDuringStopG true wait info crit s pr a b = signalDuringStop wait info crit s pr a b) ∧
+    (b.serving = false → (signalDuringStopG true wait info crit s pr a b).1.written = b.fe.written) := by
+  intro a b ha
+  have hid : a.idSet = true := (C07_stop_id_set_until_backend_gone wait _ pre).1.mpr ha
+  have hx : a.ctx s pr = Ctx.frontend s pr := by simp [CS.ctx, Ctx.frontend, hid]
+  cases hb : b.serving
+  · have hw : signalDuringStopG true wait info crit s pr a b =
+        (if s.graceful then ({ queue := b.fe.queue ++ notices { backendRunning := true, infoOn := info, critOn := crit } s, written := b.fe.written }, Outcome.exit0)
+         else ({ queue := b.fe.queue ++ notices { backendRunning := true, infoOn := info, critOn := crit } s, written := b.fe.written }, Outcome.diedBy s)) := by
+      unfold signalDuringStopG
+      rw [hx, onSignal_frontend, hb]
+      cases hg : s.graceful <;> cases info <;> cases crit <;> simp [exec, Fe.log, notices, hg]
+    refine ⟨?_, ?_, ?_⟩
+    · rw [hw]; cases hg : s.graceful <;> simp
+    · intro h; cases h
+    · intro _; rw [hw]; cases hg : s.graceful <;> simp
+  · have e1 : signalDuringStopG true wait info crit s pr a b = signalDuringStop wait info crit s pr a b := by
+      unfold signalDuringStopG signalDuringStop
+      rw [hx, exec_frontend _ s pr _ (by simpa using hb), exec_frontend _ s pr _ (by simpa using hb)]
+      simp [notices]
+    refine ⟨?_, ?_, ?_⟩
+    · rw [e1]
+      exact (C07_signal_during_stop_exact wait info crit s pr f pre mid ha).mpr hb
+    · intro _; exact e1
+    · intro h; cases h
+
+/-- the F27 witness under the repair: death by SIGSEGV instead of the hang; the notices stay queued -/
+example : (let a := (CS.init { queue := [], written := [.stmt 0] }).run stopSeqCurrent true [.stopper, .stopper, .bgLastCheck]
+    signalDuringStopG true true true true .segv false a a) = ({ queue := [.notice, .critical], written := [.stmt 0] }, .diedBy .segv) := by
   decide
 
 /-! ## a process-directed signal with several threads: the outcome as a function of the receiving thread's class -/
